@@ -28,7 +28,15 @@ class Skeleton:
         self.unknown_tests: set = set()
 
     # ---- expressions ----
-    def eval(self, e: ast.AST, val: dict):
+    @staticmethod
+    def _local(ev: tuple, name: str):
+        """what the path so far stored in local `name`: "none", "some" (definitely not None) or None (unknown)"""
+        for x in reversed(ev):
+            if isinstance(x, tuple) and len(x) == 3 and x[0] == "$" and x[1] == name:
+                return x[2]
+        return None
+
+    def eval(self, e: ast.AST, val: dict, ev: tuple = ()):
         a = self.atom_of(e)
         if a is not None:
             name, neg = a
@@ -38,15 +46,21 @@ class Skeleton:
         if isinstance(e, ast.BoolOp):
             if isinstance(e.op, ast.And):
                 for x in e.values:
-                    if not self.eval(x, val):
+                    if not self.eval(x, val, ev):
                         return False
                 return True
             for x in e.values:
-                if self.eval(x, val):
+                if self.eval(x, val, ev):
                     return True
             return False
         if isinstance(e, ast.UnaryOp) and isinstance(e.op, ast.Not):
-            return not self.eval(e.operand, val)
+            return not self.eval(e.operand, val, ev)
+        # a local that this path set to None / to a display: `x is None`, `x is not None`
+        if isinstance(e, ast.Compare) and len(e.ops) == 1 and isinstance(e.left, ast.Name) and isinstance(e.ops[0], (ast.Is, ast.IsNot)) \
+                and isinstance(e.comparators[0], ast.Constant) and e.comparators[0].value is None:
+            k = self._local(ev, e.left.id)
+            if k is not None:
+                return (k == "none") == isinstance(e.ops[0], ast.Is)
         if isinstance(e, ast.Constant) and isinstance(e.value, bool):
             return e.value
         raise Unknown(ast.unparse(e))
@@ -84,7 +98,7 @@ class Skeleton:
         if isinstance(st, ast.If):
             ev2 = self._events(st.test, ev)
             try:
-                branches = [bool(self.eval(st.test, val))]
+                branches = [bool(self.eval(st.test, val, ev))]
             except Unknown as u:
                 self.unknown_tests.add(str(u))
                 branches = [True, False]
@@ -97,7 +111,7 @@ class Skeleton:
             if st.value is None:
                 return {("return", None, ev2)}
             try:
-                return {("return", bool(self.eval(st.value, val)), ev2)}
+                return {("return", bool(self.eval(st.value, val, ev)), ev2)}
             except Unknown:
                 return {("return", "?" + ast.unparse(st.value), ev2)}
         if isinstance(st, ast.Continue):
@@ -114,7 +128,22 @@ class Skeleton:
                     raise AnalysisError("decision skeleton contains control flow inside a nested {} at line {}".format(
                         type(st).__name__, st.lineno))
             return {("fall", None, self._events(st, ev))}
-        return {("fall", None, self._events(st, ev))}
+        ev2 = self._events(st, ev)
+        if isinstance(st, (ast.Assign, ast.AnnAssign)):
+            tgts = st.targets if isinstance(st, ast.Assign) else [st.target]
+            v = st.value
+            for t in tgts:
+                for nm in ([t] if isinstance(t, ast.Name) else [x for x in ast.walk(t) if isinstance(x, ast.Name)]):
+                    if isinstance(t, ast.Name) and isinstance(v, ast.Constant) and v.value is None:
+                        k = "none"
+                    elif isinstance(t, ast.Name) and (isinstance(v, (ast.Tuple, ast.List, ast.Dict, ast.Set, ast.JoinedStr))
+                                                      or (isinstance(v, ast.Constant) and v.value is not None)):
+                        k = "some"
+                    else:
+                        k = None
+                    if k is not None or self._local(ev2, nm.id) is not None:
+                        ev2 = ev2 + (("$", nm.id, k),)
+        return {("fall", None, ev2)}
 
 
 def valuations(atoms: list):
